@@ -3,6 +3,7 @@ use crate::ctx::Ctx;
 pub mod c01;
 pub mod c02;
 pub mod c03;
+pub mod c04;
 pub mod c05;
 pub mod c08;
 pub mod c09;
@@ -22,12 +23,14 @@ pub fn dispatch(ctx: &mut Ctx) {
         "C01" => c01::run(ctx),
         "C02" => c02::run(ctx),
         "C03" => c03::run(ctx),
+        "C04" => c04::run(ctx),
         "C05" => c05::run(ctx),
         "C08" => c08::run(ctx),
         "C09" => c09::run(ctx),
         "C10" => c10::run(ctx),
         "C12" => c12::run(ctx),
         "C13" => c13::run(ctx),
+        "C06" => c06::run(ctx),
         "C07" => c07::run(ctx),
         "C14" => c14::run(ctx),
         "C15" => c15::run(ctx),
